@@ -110,6 +110,23 @@ class Context:
         return self._canon
 
 
+def representatives(ctx, method='_parse'):
+    """Concrete parsable classes to analyse: thorough = all of them; quick = one receiver class per distinct
+    definition of ``method`` (the defining class itself when it is concrete, else its first concrete subclass)."""
+    classes = ctx.model.concrete_parsables()
+    if ctx.thorough:
+        return classes
+    seen = {}
+    for c in classes:
+        f = c.resolve(method)
+        if f is None:
+            continue
+        if f not in seen or (f.cls is c):
+            if f not in seen or seen[f].resolve(method).cls is not seen[f]:
+                seen[f] = c
+    return list(seen.values())
+
+
 def load_known():
     if not os.path.isfile(KNOWN_PATH):
         return []
